@@ -58,6 +58,9 @@ pub const LEX_CONTEXTS: &[(&str, &str)] = &[
     ("leading", "<X>package p; interface I { void f(); const String S = \"€\"; }"),
     ("leading_line", "<X>\npackage p; enum E { A }"),
     ("member_name", "package p; interface I { int <X>(); int <X>(in int a); }"),
+    ("trailing_tight", "package p; interface I { void f(); }<X>"),
+    ("after_package", "package p;<X> enum E { A }"),
+    ("inside_item", "package p; parcelable P { int a;<X> int b; }"),
 ];
 
 pub const LEXEMES: &[&str] = &[
@@ -69,7 +72,9 @@ pub const LEXEMES: &[&str] = &[
     "/* unterminated", "/*/", "/**/", "/***/", "/* a */", "/** d */", "// eof", "//", "/", "*/", "é", "a-b", "a - b", "-", "@", "@1", "@a", "@a.b", "@ a",
     "a..b", ".a", "a.", "a.b", "a . b", "a.b.c", "_", "__", "_1", "a1", "1a", "a\u{a0}b", "a\u{2028}b", "x\u{301}", "\u{feff}", "\0", "#", "'a'", "a b",
     "a/**/b", "a//c\nb", "TRUE", "FALSE", "True", "Interface", "ENUM", "Parcelable", "OneWay", "Package", "Import", "IN", "Void", "null", "\u{feff}\u{feff}", "\u{200b}",
-    "\u{feff}x", "int[]", "int []", "int[ ]", "int[][]", "List<int>", "List<>", "List<List<int>>", "Map<String,int>", "Map<String>", "{}", "{1}",
+    "\u{feff}x", "\u{1a}", "\u{4}", "\u{1}", "\u{7}", "\u{8}", "\u{1b}", "\u{1c}", "\u{1f}", "\u{7f}", "\u{80}", "\u{9f}", "\u{ad}", "\u{200c}", "\u{200d}", "\u{200e}",
+    "\u{2060}", "\u{fffd}", "\u{ffff}", "\u{e000}", "\u{10ffff}", "\u{1a}\n", " \u{1a}", "cons", "interfac", "enumm", "packag", "imprt", "onewa", "parcelabl",
+    "\"Herzlich willkommen sowie die allerbesten Grüße aus München und Österreich\"", "\"ééééééééééééééééééééééééééééééééééééééééééééééééééééééé\"", "int[]", "int []", "int[ ]", "int[][]", "List<int>", "List<>", "List<List<int>>", "Map<String,int>", "Map<String>", "{}", "{1}",
     "{1 2}", "{1,}", "{,}", "A.B", "A.B.C", "IBinder", "android.os.IBinder", "", " ", "\n", "\r\n",
 ];
 
